@@ -76,3 +76,26 @@ def facts(repo, f, H):
     if ql.count("return leftVersion > rightVersion") != 2:
         raise ValueError("banyand/measure/query.go: unrecognised queryResult.Less")
     f["queryLessVersionDesc"] = True
+
+    # the columnar read path: queryResult.PullBatch / mergeBatch (query_batch.go)
+    f["mergeBatchMaxRows"] = H.const(repo, "banyand/measure/query_batch.go", "mergeBatchMaxRows")
+    pb = _norm(H.strip_comments(body(repo, "banyand/measure/query_batch.go", r"func \(qr \*queryResult\) PullBatch\(", H)))
+    if "if len(qr.data) == 1 { bc := qr.data[0]" not in pb or "bc.copyAllToBatch(b, qr.batchSchema, qr.storedIndexValue, qr.orderByTimestampDesc()) qr.data = qr.data[:0]" not in pb:
+        raise ValueError("banyand/measure/query_batch.go: unrecognised single-cursor fast path in PullBatch")
+    mbt = _norm(H.strip_comments(body(repo, "banyand/measure/query_batch.go", r"func \(qr \*queryResult\) mergeBatch\(", H)))
+    dup = "b.RowCount() > 0 && topBC.timestamps[topBC.idx] == b.Timestamps[len(b.Timestamps)-1]"
+    legacy = ("for qr.Len() > 0 && b.RowCount() < mergeBatchMaxRows { topBC := qr.data[0]" in mbt
+              and "lastSid = topBC.bm.seriesID if " + dup + " {" in mbt)
+    fixed = ("for qr.Len() > 0 { topBC := qr.data[0]" in mbt
+             and "lastSid = topBC.bm.seriesID isDuplicate := " + dup + " if b.RowCount() >= mergeBatchMaxRows && !isDuplicate { break } if isDuplicate {" in mbt)
+    if legacy == fixed:
+        raise ValueError("banyand/measure/query_batch.go: unrecognised loop / batch cut in mergeBatch")
+    f["batchCutBetweenPoints"] = fixed
+    for frag in ("if lastSid != 0 && topBC.bm.seriesID != lastSid { break } lastSid = topBC.bm.seriesID",
+                 "if topBC.versions[topBC.idx] > lastVersion { topBC.replaceInBatch(b, schema, storedIndexValue) lastVersion = topBC.versions[topBC.idx] } "
+                 "} else { topBC.copyToBatch(b, schema, storedIndexValue) lastVersion = topBC.versions[topBC.idx] } topBC.idx += step"):
+        if frag not in mbt:
+            raise ValueError("banyand/measure/query_batch.go: unrecognised shape of mergeBatch (%s)" % frag[:40])
+    if "b := newMeasureBatchForSchema(schema, mergeBatchMaxRows) var lastVersion int64 var lastSid common.SeriesID for qr.Len() > 0" not in mbt:
+        raise ValueError("banyand/measure/query_batch.go: mergeBatch no longer starts every batch from scratch")
+    f["batchReplaceStrict"] = True
